@@ -139,6 +139,13 @@ def handle (fn : String) (a : Json) : R Json := do
     pure (ofBytes (utf8 (← strF a "s")))
   | "le_name" =>
     pure (ofBool (leName (← strF a "a") (← strF a "b")))
+  | "schema_touch" =>
+    -- `_ArrowSchemaDescriptor.__get__` over a class forest and a touch sequence (extracted lookup mode)
+    let parents ← (← arrF a "parents").mapM fun j => match j with
+      | .null => pure none
+      | v => do pure (some (← nat v))
+    let touches ← (← arrF a "touches").mapM nat
+    pure (ofList ((touchAll Gen.Describe.schemaCacheLookup parents [] touches).map ofNat))
   | "describe_gate" =>
     -- the version gate in front of `__describe__` at one extracted call site (C09 model)
     let siteName ← rawStr (← field a "site")
